@@ -435,10 +435,11 @@ def run_session(case: dict) -> list[str]:
         net = case.get("net", {})
         backend_a = env.HBackend(rec)
         backend_b = env.HBackend(None)
+        lend = bool(case.get("lend"))       # the wrapped transports keep the recv_into buffer across a suspension (c08_env)
         A = env.MemTransport(backend_a, rec, frags=net.get("a_frags"), cycle=True, rpause=net.get("a_rpause"),
-                             spause=net.get("a_spause"))
+                             spause=net.get("a_spause"), lend=lend)
         B = env.MemTransport(backend_b, None, frags=net.get("b_frags"), cycle=True, rpause=net.get("b_rpause"),
-                             spause=net.get("b_spause"))
+                             spause=net.get("b_spause"), lend=lend)
         A.on_send, B.on_send = B.feed, A.feed
         box["A"], box["B"] = A, B
         a_server = role == "server"
